@@ -13,6 +13,10 @@ Line protocol for C22 (syntax of nodes / meta / requests: `Driver/PlanCacheProto
   the mutex was taken (logged by the `cfg(rten_verif)` hook), `;`-separated `<ids>><ids>` (inputs,
   outputs) starting from a cold cache.  The model replays `get_cached_plan` in that order and
   answers with one letter per entry: `h` (cache hit) or `m` (miss → `create_plan`, replace on success).
+* `slocks <graphs> <entries>` — the same for the plan caches of the `If`/`Loop` body graphs of the
+  round's model (`is_subgraph = true`): `<graphs>` = `@`-separated `<nodes>~<captureIds>`, graph k (from 1)
+  in that list; `<entries>` = `;`-separated `<k>:<ids>><ids>` in lock order; replayed with `lockTrace`.
+* `assume <nodes>` — the graph hypotheses of the theorems on a real graph's IR → `ok` | `violated:<list>`.
 -/
 namespace RtenVerif.Driver.C22
 open RtenVerif.Driver RtenVerif.Graph RtenVerif.Planner RtenVerif.PlanCache RtenVerif.Driver.PlanCacheProto
@@ -23,6 +27,24 @@ def parseEntry (s : String) : Option (List Nat × List Nat) :=
     let ins ← parseIds i
     let outs ← parseIds o
     pure (ins, outs)
+  | _ => none
+
+/-- `<nodes>~<captures>` of one `If`/`Loop` body graph. -/
+def parseSubgraph (s : String) : Option Graph :=
+  match s.splitOn "~" with
+  | [ns, cs] => do
+    let nodes ← parseNodes ns
+    let caps ← parseIds cs
+    pure { nodes := nodes, captures := caps }
+  | _ => none
+
+/-- `<family index>:<ins>><outs>`. -/
+def parseSubEntry (s : String) : Option LockEv :=
+  match s.splitOn ":" with
+  | [k, e] => do
+    let gi ← k.toNat?
+    let (ins, outs) ← parseEntry e
+    pure { gi := gi, ins := ins, outs := outs }
   | _ => none
 
 /-- Replay the critical sections in lock order. -/
@@ -47,6 +69,18 @@ def handle (line : String) : String :=
     match parseNodes ns, (if es == "-" then some [] else (es.splitOn ";").mapM parseEntry) with
     | some nodes, some entries =>
       let r := replay { nodes := nodes } entries none []
+      if r.isEmpty then "-" else String.ofList r
+    | _, _ => "bad-request"
+  | ["assume", ns] =>
+    match parseNodes ns with
+    | some nodes => assumeAnswer { nodes := nodes }
+    | none => "bad-request"
+  | ["slocks", gs, es] =>
+    -- family index 0 (top-level graph) is not used by these entries
+    match (gs.splitOn "@").mapM parseSubgraph, (if es == "-" then some [] else (es.splitOn ";").mapM parseSubEntry) with
+    | some subs, some entries =>
+      let graphs : List Graph := { nodes := [] } :: subs
+      let r := lockTrace graphs entries (graphs.map (fun _ => none))
       if r.isEmpty then "-" else String.ofList r
     | _, _ => "bad-request"
   | _ => "bad-request"
